@@ -498,6 +498,16 @@ class CellSim(object):
 
     def op_renew(self, idx):
         app = self._app(idx)
+        # aim: placed instances that asked for a lease (a renewal can fail
+        # only for them), identity holders first
+        leased = [n for n in self.app_order
+                  if self.cell.apps[n].server and self.decl_apps[n]['lease']]
+        holders = [n for n in leased
+                   if self.cell.apps[n].identity is not None]
+        if holders and idx % 4 in (1, 2):
+            app = self.cell.apps[holders[idx % len(holders)]]
+        elif leased and idx % 4 == 3:
+            app = self.cell.apps[leased[idx % len(leased)]]
         if app is not None and app.server:
             app.renew = True
 
